@@ -90,6 +90,7 @@ func (g *Gen) instrMods(fc *FnCtx, fn *ssa.Function, in ssa.Instruction, ms *Mod
 	case *ssa.Store:
 		g.staticAddrNames(fc, fn, x.Addr, pointee(x.Addr.Type()), ms)
 	case *ssa.MapUpdate:
+		g.mapModNames(fc, x.Map, ms)
 		if mm, ok := x.Map.(*ssa.MakeMap); ok && localMap(mm) {
 			ms.Names["L!maplen"] = true
 			fc.regArr("L!maplen", "(Array Int Int)")
@@ -310,6 +311,10 @@ func (g *Gen) specModsP(fc *FnCtx, sp *FuncSpec, ms *ModSet, includePoint bool) 
 		}
 		if e == "elems(*)" {
 			ms.addPfx("E!")
+			continue
+		}
+		if e == "maplen" || e == "maps" {
+			ms.addPfx("G!map") // lengths, key sets and values of all (non-local) maps
 			continue
 		}
 		if j := strings.Index(e, " if "); j > 0 {
@@ -1385,7 +1390,15 @@ func (fr *Frame) builtin(in ssa.Instruction, bi *ssa.Builtin, c *ssa.CallCommon,
 			if bi.Name() == "clear" {
 				fc.define(sEq(sym(nl), "0"))
 			}
-			return st.store(arr, sx("store", st.get(arr), args[0].S, sym(nl)))
+			st = st.store(arr, sx("store", st.get(arr), args[0].S, sym(nl)))
+			if dom, _, ks, _ := fc.mapArrs(args[0].T, args[0].S); dom != "" {
+				if bi.Name() == "clear" {
+					st = st.store(dom, sx("store", st.get(dom), args[0].S, sx("(as const (Array "+ks+" Bool))", "false")))
+				} else if len(args) > 1 {
+					st = st.store(dom, sx("store", st.get(dom), args[0].S, sx("store", sx("select", st.get(dom), args[0].S), args[1].S, "false")))
+				}
+			}
+			return st
 		}
 		return st
 	case "min", "max":
@@ -1505,6 +1518,16 @@ func (fr *Frame) callSiteAsserts(name string, pnames []string, args []Val, b *ss
 	fc.siteCount++
 	fc.lastSite = fmt.Sprintf("%s#%d", name, occ)
 	fc.lastSiteName = name
+	if fc.relMode && fr.relSites != nil {
+		args2 := map[string]Val{}
+		for i := range args {
+			args2[fmt.Sprintf("$arg%d", i)] = args[i]
+			if i < len(pnames) && pnames[i] != "" {
+				args2["$"+pnames[i]] = args[i]
+			}
+		}
+		fr.relSites[fc.lastSite] = &relPoint{st: st, cond: guard, args: args2, block: b, in: in}
+	}
 	for _, c := range fc.spec.Asserts {
 		if c.Site == fmt.Sprintf("%s#%d", name, occ) || c.Site == name+"#*" {
 			if !fc.modeOK(c) {
@@ -1633,4 +1656,35 @@ func (fc *FnCtx) siteName(fn *ssa.Function, c *ssa.CallCommon) string {
 		}
 	}
 	return "funcvalue"
+}
+
+func (g *Gen) mapModNames(fc *FnCtx, mv ssa.Value, ms *ModSet) {
+	m, ok := mv.Type().Underlying().(*types.Map)
+	if !ok {
+		return
+	}
+	switch kindOf(m.Key()) {
+	case KInt, KStr, KBool, KRef:
+	default:
+		return
+	}
+	for _, pfx := range []string{"G!", "L!"} {
+		if mm, ok := mv.(*ssa.MakeMap); ok {
+			if localMap(mm) != (pfx == "L!") {
+				continue
+			}
+		} else if pfx == "L!" {
+			continue
+		}
+		ks := fc.m.scalarSort(m.Key())
+		dom := pfx + "mapdom!" + typeKey(m.Key())
+		fc.regArr(dom, "(Array Int (Array "+ks+" Bool))")
+		ms.Names[dom] = true
+		switch kindOf(m.Elem()) {
+		case KInt, KBool, KRef, KStr:
+			val := pfx + "mapval!" + typeKey(m.Key()) + "!" + typeKey(m.Elem())
+			fc.regArr(val, "(Array Int (Array "+ks+" "+fc.m.scalarSort(m.Elem())+"))")
+			ms.Names[val] = true
+		}
+	}
 }
